@@ -173,6 +173,34 @@ def render_a(idx, kinds, err):
 """
 
 
+def render_trait_generic(idx, bound_form, err):
+    """A generic *trait*: Debug bound inline, in a where-clause, or absent."""
+    decl = {"inline": "pub trait Tr<T: core::fmt::Debug + 'static>", "where": "pub trait Tr<T> where T: core::fmt::Debug + 'static",
+            "none": "pub trait Tr<T: 'static>"}[bound_form]
+    shown = "?" if bound_form == "none" else "42"
+    callname = f'Tr::f("k", {shown})'
+    if err == "no_impl":
+        new = "Unimock::new(())"
+        expect = f"{callname}: No mock implementation found."
+    else:
+        new = "Unimock::new(Mk::f.with_types::<u16>().each_call(&|m| { m.func(|_, _| false); }).returns(1u32))"
+        expect = f"{callname}: No matching call patterns. "
+    return f"""    #[unimock(api=Mk)]
+    {decl} {{
+        fn f(&self, a0: &str, a1: T) -> u32;
+    }}
+    pub fn run() -> Result<(), String> {{
+        let u = {new}.no_verify_in_drop();
+        let r = vh::obs::catch(|| <Unimock as Tr<u16>>::f(&u, "k", 42u16));
+        let expect = {rs_str(expect)};
+        match r {{
+            Err(msg) if msg == expect => Ok(()),
+            other => Err(format!("expected the message {{expect:?}}, observed {{other:?}}")),
+        }}
+    }}
+"""
+
+
 # ----------------------------------------------------------------------------------------- (B)
 
 SUBPATS = ["1", "_", "0 | 2", "eq!(&1)", "ne!(&1)"]
@@ -238,6 +266,15 @@ def render_b(idx, pats, mode):
         clause = f"let (clause, line) = (Mk::f.stub(|each| {{ each.call(matching!({pat_text})).returns(1u32); each.call(&|m| {{ m.func(|_, _| false); }}).returns(2u32); }}), line!());"
         head = "No matching call patterns."
         prefix = ""
+    elif mode == "ordered2":
+        # a second ordered pattern of the same method that rejects the arguments as well: the report
+        # is about the pattern in line only
+        new = "Unimock::new(clause)"
+        nines = ", ".join("9" for _ in pats)
+        clause = f"let (clause, line) = ((Mk::f.next_call(matching!({pat_text})).returns(1u32), Mk::f.next_call(matching!({nines})).returns(2u32)), line!());"
+        head = "but inputs didn't match"
+        prefix = ""
+        mode = "ordered"
     elif mode == "ordered-multiline":
         # the invocation spans several lines: the pattern is named by the line of `matching!(`
         new = "Unimock::new(clause)"
@@ -400,6 +437,9 @@ def instances(tier):
         errs = errs_full if (len(l) != 2 or quick) else ["no_impl", "no_match", "ordered_mismatch", "explicit"]
         for e in errs:
             add(f"render:{','.join(l)}/{e}", render_a(len(insts), l, e), {"part": "A"})
+    for bound_form in ("inline", "where", "none"):
+        for e in ("no_impl", "no_match"):
+            add(f"render-trait-generic:{bound_form}/{e}", render_trait_generic(len(insts), bound_form, e), {"part": "A"})
     # (B)
     for n in (2, 3):
         for pats in itertools.product(SUBPATS, repeat=n):
@@ -407,7 +447,9 @@ def instances(tier):
                 continue
             if quick and n == 3 and pats.count("_") == 0:
                 continue
-            for mode in ("unordered", "unordered2", "ordered", "ordered-multiline"):
+            for mode in ("unordered", "unordered2", "ordered", "ordered2", "ordered-multiline"):
+                if mode == "ordered2" and (n == 3 and quick):
+                    continue
                 if mode == "unordered2" and (quick or n == 3):
                     continue
                 if mode == "ordered-multiline" and (pinned_text(pats) is None or (quick and n == 3)):
